@@ -1183,7 +1183,7 @@ void NifFile::TrimTexturePaths() {
 
 		// Search for the first occurrence of "\textures\" (only if "textures\" isn't at the start)
 		std::smatch match;
-		std::regex pattern(R"(^(?!textures\\).*?\\textures\\)", std::regex_constants::icase);
+		std::regex pattern(R"(^(?!textures\\)[\s\S]*?\\textures\\)", std::regex_constants::icase);
 	
 		if (std::regex_search(tex, match, pattern))
 			tex = tex.substr(match[0].length()); // Remove matched string
